@@ -25,11 +25,12 @@ def run(repo, chk):
                        'an empty hypothesis added to an empty network cannot be represented')
     R = Rules(repo, chk)
     refcheck.run_all(R, repo, chk, 'RECUR', 'cn_ref.py', WHAT, skip=('add_hypothese',))
+    refcheck.run_all(R, repo, chk, 'RECUR', 'seqalign_ref.py', {'levenshtein_alignment_path': 'the alignment path the pointer bookkeeping follows'}, only=('levenshtein_alignment_path',))
     R.run('COUNT', count, repo, chk)
     R.run('FACTS', facts, repo, chk)
     chk.expect('COUNT', 4)
     chk.expect('FACTS', 4)
-    chk.expect('RECUR', 7)
+    chk.expect('RECUR', 8)
 
 
 def _paths(cfg, start, stop_nodes):
